@@ -47,7 +47,7 @@ CONFIG = {
     "combination (2^n) x arm {py, arr0, mixed-a, mixed-b, jit, jit-mixed, vec, vec-jit, vec2d, vmap}; __getitem__ table over flag shapes "
     "(), (3,), (2,2) x paths x {py, arr0, jit, vec, vec-jit}; Diff-wrapped flags for ~ and []; random cases: random pytree "
     "(<=4 leaves, shapes (), (1,), (2,), (3,), (4,), (2,2), dtypes f32/i32/bool), random batch shape, random flags under "
-    "{vec, vmap, py, arr0}. One cell = one (op, kind, arm, flag combination / batch element). non-trivial: an array or "
+    "{vec, jit(vmap), py, arr0}. One cell = one (op, kind, arm, flag combination / batch element). non-trivial: an array or "
     "traced flag, or a non-scalar value; distinct by (op, kind, arm, combination).",
     "reach_anchors": _ANCH,
     "reach_required": _ANCH,
@@ -594,7 +594,7 @@ def random_cases(ctx, book, Mask, T, n_cases, budget_s):
                     g = lambda F, V: fn(F, V)  # noqa: E731
                     for _ in batch:
                         g = jax.vmap(g)
-                    res = g(Fj, Vj)
+                    res = jax.jit(g)(Fj, Vj)  # one compilation instead of one per primitive
                 ok, field, why = agree(observe(res, Mask), ek, eb)
             except Exception as e:
                 ctx.count("random_cells", nel)
@@ -612,7 +612,7 @@ def random_cases(ctx, book, Mask, T, n_cases, budget_s):
                     detail=f"random case {op} spec={spec} batch={batch} arm={arm}: {why}"[:600],
                 )
         # per-element eager evaluation with concrete flags for a few elements
-        idxs = [np.unravel_index(int(i), batch) for i in rng.choice(nel, size=min(4, nel), replace=False)]
+        idxs = [np.unravel_index(int(i), batch) for i in rng.choice(nel, size=min(3, nel), replace=False)]
         for idx in idxs:
             for arm in ("py", "arr0"):
                 c = tuple(bool(f[idx]) for f in Fnp)
@@ -658,5 +658,5 @@ def run(ctx):
     getitem_table(ctx, book, Mask)
     if ctx.shard == 1 % ctx.nshards:
         diff_flags(ctx, Mask)
-    random_cases(ctx, book, Mask, T, ctx.pick(96, 3200), budget_s=ctx.pick(120, 1500))
+    random_cases(ctx, book, Mask, T, ctx.pick(96, 1600), budget_s=ctx.pick(200, 800))
     book.finish()
